@@ -180,7 +180,7 @@ def getitem(prog: Program, rep: Report, MW: ClassInfo):
                                f"it is called with a possibly negative index at {', '.join(bad)}" if bad else "has no callers")
                            + ": the 'index' item and every index-seeded wrapper see the raw negative value", clause="C01.4")
         # ---- return shape ---------------------------------------------------------------------------------------------------
-        rets = [(n, cfg.nodes[n].ast.value) for n, t in fa.returns() if any(cfg.reachable(LN, n) for _, _, LN in sites)]
+        rets = [(n, fa.ret_ast(n)[0]) for n, t in fa.returns() if any(cfg.reachable(LN, n) for _, _, LN in sites)]
         ok = bool(rets)
         why = "(items, ctx) iff self.return_ctx"
         for n, rv in rets:
@@ -252,7 +252,7 @@ def getitem(prog: Program, rep: Report, MW: ClassInfo):
     # slices / lists recurse
     fa = fa_of(prog, fi)
     for n, t in fa.returns():
-        rv = fa.cfg.nodes[n].ast.value
+        rv = fa.ret_ast(n)[0]
         if isinstance(rv, ast.ListComp):
             elt = rv.elt
             rec = isinstance(elt, ast.Subscript) and _n(elt.value) == fa.self_name
